@@ -475,7 +475,7 @@ def run(ctx):
         runs.append(("main", "-seed %d -n 1500 -sweep 4 -nlarge 12 -nmulti 300 -npfx 150 -rockpct 35 -engines mem,pebble,rocksdb -corpus %s" % (ctx.seed, corpus)))
         runs.append(("memvariants", "-seed %d -n 400 -sweep 1 -nlarge 6 -nmulti 50 -npfx 30 -engines membtree,memskip -corpus %s" % (ctx.seed + 7919, corpus)))
     else:
-        runs.append(("main", "-seed %d -n 30000 -sweep 40 -nlarge 400 -nmulti 8000 -npfx 6000 -rockpct 50 -engines mem,pebble,rocksdb,membtree,memskip -corpus %s"
+        runs.append(("main", "-seed %d -n 22000 -sweep 32 -nlarge 300 -nmulti 6000 -npfx 4000 -rockpct 50 -engines mem,pebble,rocksdb,membtree,memskip -corpus %s"
                      % (ctx.seed, corpus)))
 
     all_mism, all_fail, total, hist_all, samples, distinct = [], [], 0, {}, [], set()
@@ -517,7 +517,7 @@ def run(ctx):
 
     # command-level differential on the three selectable engines
     if cmd_args is None and not ctx.replay:
-        cmd_args = "-seed %d -n %d -len 40" % (ctx.seed, 150 if quick else 3000)
+        cmd_args = "-seed %d -n %d -len 40" % (ctx.seed, 150 if quick else 2000)
     cmd_total, cmd_note = 0, None
     if cmd_args:
         cfails, cmd_total, cmd_note = cmd_differential(ctx, cmd_args)
@@ -527,7 +527,7 @@ def run(ctx):
         hist_all["cmd_differential_lines"] = cmd_total
 
     if own_args is None and not ctx.replay:
-        own_args = "-cmd -seed %d -n %d" % (ctx.seed, 120 if quick else 3000)
+        own_args = "-cmd -seed %d -n %d" % (ctx.seed, 120 if quick else 2000)
     own_total = 0
     if own_args:
         ofails, own_total = own_cmd_differential(ctx, own_args)
